@@ -89,7 +89,7 @@ def main():
             dst = os.path.join(HERE, "seeded", a.name)
             os.makedirs(dst, exist_ok=True)
             for f in ("patch.diff", "demo.py", "notes.md"):
-                if os.path.exists(os.path.join(a.src, f)):
+                if os.path.exists(os.path.join(a.src, f)) and os.path.abspath(a.src) != os.path.abspath(dst):
                     shutil.copy(os.path.join(a.src, f), os.path.join(dst, f))
             notes = os.path.join(a.src, "notes.md")
             meta["needs_to_manifest"] = open(notes).read()[:1500] if os.path.exists(notes) else ""
